@@ -159,7 +159,7 @@ func cmdCheck(args []string) int {
 	usedCt := map[string]bool{}
 	var assumedCts []string
 	deferred := map[string]int{}
-	nsupport := 0
+	nsupport, nsafetySkipped, ndeferred := 0, 0, 0
 	var unverified []string
 	for _, ct := range e.allCts {
 		f := e.ctFunc[ct]
@@ -181,7 +181,9 @@ func cmdCheck(args []string) int {
 		}
 		if ct.hasMode("assumed") {
 			assumedCts = append(assumedCts, funcKey(f)+" ("+ct.Modes["assumed"]+")")
-			continue
+			if !ct.hasMode("loops-checked") {
+				continue
+			}
 		}
 		fv := e.verifyFunc(f, ct)
 		fvs = append(fvs, fv)
@@ -212,6 +214,11 @@ func cmdCheck(args []string) int {
 			continue
 		}
 		for _, o := range fv.obls {
+			if ct.hasMode("assumed") && o.Kind != "step" && o.Kind != "inv-init" && o.Kind != "inv-step" {
+				// mode assumed + loops-checked: the function's own contract stays an assumption; only the
+				// clauses attached to its loops are proved (under the other obligations as path assumptions)
+				continue
+			}
 			// supporting obligations: clauses without a property tag of their own (loop invariants, callee
 			// preconditions, frames, untagged postconditions) are what the tagged clauses of this function and
 			// its callers rest on, so they are checked under every property the function serves. Untagged
@@ -220,6 +227,12 @@ func cmdCheck(args []string) int {
 			supporting := o.Inherited && o.Kind != "safety" && o.Kind != "cover"
 			if supporting && !hasProp(o.Props, *prop) {
 				nsupport++
+			}
+			if o.Inherited && o.Kind == "safety" && !hasProp(o.Props, *prop) {
+				nsafetySkipped++
+			}
+			if thoroughOnly(o.Props, *prop) && *tier != "thorough" {
+				ndeferred++
 			}
 			if o.Kind == "cover" || hasProp(o.Props, *prop) || supporting {
 				if *tier != "thorough" && o.Kind != "cover" && thoroughOnly(o.Props, *prop) {
@@ -232,7 +245,6 @@ func cmdCheck(args []string) int {
 		}
 		reports = append(reports, rep)
 	}
-	_ = nsupport
 	// lemmas over the spec functions
 	lfiles, _ := filepath.Glob(filepath.Join(*verif, "spec", "lemmas", *prop+"_*.smt2"))
 	sort.Strings(lfiles)
@@ -379,6 +391,9 @@ func cmdCheck(args []string) int {
 		"strings are an uninterpreted sort with length, byte-at, concatenation length, substring length and a strict total order; no UTF-8 semantics",
 		"slice/string/map lengths are below 2^46; no typed-nil pointers inside Object interfaces; receivers are non-nil",
 		"Go map iteration order, goroutines, channels, select, recover, unsafe and reflection are outside the verified subset",
+		fmt.Sprintf("%d run-time panic sites (nil, index, slice, type assertion, division, explicit panic) in the functions under contract are not obligations of this property: on those paths the clauses are proved under the assumption that the operation does not panic (partial correctness)", nsafetySkipped),
+		fmt.Sprintf("%d obligations of clauses tagged for the thorough tier only are assumptions of the quick tier", ndeferred),
+		"queries refuted in an earlier run with byte-identical text are not solved again (solver 'memo:<solver>' in by_solver); the memo is not committed",
 		"trusted: go/packages + go/ssa (x/tools v0.29.0), the tgvc encoder, z3 5.1.0 / z3 4.8.12 / cvc5 1.0.3, the Go toolchain")
 	var fnames []string
 	for _, r := range reports {
@@ -400,9 +415,12 @@ func cmdCheck(args []string) int {
 			"slowest":                  slowest,
 			"samples":                  samples,
 			"cover_checks":             covers,
+			"supporting_obligations":   nsupport,
+			"path_assumptions_no_panic": nsafetySkipped,
+			"deferred_to_thorough_tier": ndeferred,
 			"known_findings_printed":   knownPrinted,
 			"solver_timeout_s":         *timeout,
-			"all_solvers_on_every_obligation": *tier == "thorough",
+			"cross_checked_by_other_solvers_20s": *tier == "thorough",
 		},
 		"assumptions": assumed,
 		"wall_s":      time.Since(t0).Seconds(),
